@@ -54,6 +54,8 @@ def grid_points(times, placement):
 def thetas_for(kind, m, which):
     if which == "equal":
         return [2.7] * m
+    if which == "paired":  # equal adjacent pairs that differ from the last entry
+        return [1.3 + 1.9 * (i // 2) for i in range(m)]
     return [1.3 + 0.77 * ((3 * i + 1) % 7) for i in range(m)]
 
 
@@ -170,6 +172,10 @@ def check_item(item):
                     if which == "equal" and v is not None and v_const is not None:
                         if not abs(v - v_const) <= RTOL * max(1.0, abs(v_const)):
                             bad.append((f"{model}:equal_pieces", f"grid {grid}: {v!r} vs constant {v_const!r}"))
+                if which == "distinct" and G >= 2:
+                    thp = thetas_for("g", G + 1, "paired")
+                    for model in ("skygrid", "linear"):
+                        run_one(model, thp, grid, None, perms[:1], f"{model} paired thetas grid {grid}")
                 if which == "distinct":
                     # scaling law for the grid models
                     c = 0.41
